@@ -9,20 +9,28 @@
    effect (the channel receive) lies between its two stamps.  The callbacks are
    attributed exactly to ticks by the executor.
 
+   Drain takes effect at one point between its stamps and delivers exactly the timers
+   pending at that point.  Stop closes stopChannel (FStop, between Stop's stamps); the run
+   loop notices it later (FExit, no upper bound: it may still receive requests that were
+   ready at the same moment, even after Stop has returned).
+
    The search is done key by key: the calls on one key together with all ticks.  A
    history whose calls can be ordered globally can be ordered for every key, so the
    check never rejects a linearisable history (it may accept a non-linearisable one
    whose keys are individually fine). *)
 From Coq Require Import List ZArith Bool.
-From GZ Require Import Lib.CheckLib C12.Model.
+From GZ Require Import Lib.CheckLib C12.Model C12.Api.
 Import ListNotations.
 Open Scope Z_scope.
 
-Definition ev := (Z * Z * op)%type.            (* start, end, request *)
+Inductive fop := FReq (o : op) | FDrain (f : fired) | FStop | FExit.
+Definition ev := (Z * Z * fop * res)%type.     (* start, end, call, result *)
 Definition tk := (Z * Z * fired)%type.         (* start, end, callbacks of this tick *)
 
-Definition ev_start (x : ev) : Z := fst (fst x).
-Definition ev_end (x : ev) : Z := snd (fst x).
+Definition ev_start (x : ev) : Z := fst (fst (fst x)).
+Definition ev_end (x : ev) : Z := snd (fst (fst x)).
+Definition ev_op (x : ev) : fop := snd (fst x).
+Definition ev_res (x : ev) : res := snd x.
 
 Definition min_opt (a : option Z) (b : Z) : option Z :=
   match a with Some x => Some (Z.min x b) | None => Some b end.
@@ -46,7 +54,24 @@ Fixpoint pick {A} (pre rest : list A) (f : A -> list A -> bool) : bool :=
 
 Definition kfilt (k : Z) (f : fired) : fired := filter (fun kv => fst kv =? k) f.
 
-Fixpoint lin (fuel : nat) (i k : Z) (m : spec) (ops : list ev) (ticks : list tk) : bool :=
+(* one call on the per-key state ((stopChannel closed?, loop returned?), due-map restricted
+   to k); None = impossible.  FStop = close(stopChannel), inside Stop's stamps; FExit = the
+   run loop notices it, any time later.  A call may return ErrClosed as soon as the channel
+   is closed; a call that returned nil, and a tick, were received before the loop returned. *)
+Definition lin_call (i k : Z) (c : bool * bool) (m : spec) (x : ev) : option ((bool * bool) * spec) :=
+  match ev_op x, ev_res x with
+  | FStop, _ => Some ((true, snd c), m)
+  | FExit, _ => if fst c then Some ((true, true), m) else None
+  | _, RErrClosed => if fst c then Some (c, m) else None
+  | FReq o, ROk => if snd c then None else Some (c, fst (sp_step i m o))
+  | FDrain f, ROk =>
+    if snd c then None
+    else let '(m1, f1) := sp_step i m ODrain in
+         if pairs_eqb (sort_pairs f1) (sort_pairs (kfilt k f)) then Some (c, m1) else None
+  | _, _ => None
+  end.
+
+Fixpoint lin (fuel : nat) (i k : Z) (c : bool * bool) (m : spec) (ops : list ev) (ticks : list tk) : bool :=
   match ops, ticks with
   | [], [] => true
   | _, _ =>
@@ -56,17 +81,21 @@ Fixpoint lin (fuel : nat) (i k : Z) (m : spec) (ops : list ev) (ticks : list tk)
       let me := min_end ops ticks in
       if match ticks with
          | t :: ticks' =>
-           if may_be_next (fst (fst t)) me then
+           (* a tick that was received: the loop had not returned yet *)
+           if negb (snd c) && may_be_next (fst (fst t)) me then
              let '(m1, f1) := sp_step i m OTick in
              if pairs_eqb (sort_pairs f1) (sort_pairs (kfilt k (snd t)))
-             then lin fuel' i k m1 ops ticks' else false
+             then lin fuel' i k c m1 ops ticks' else false
            else false
          | [] => false
          end
       then true
       else pick [] ops (fun x others =>
              if may_be_next (ev_start x) me
-             then lin fuel' i k (fst (sp_step i m (snd x))) others ticks
+             then match lin_call i k c m x with
+                  | Some (c1, m1) => lin fuel' i k c1 m1 others ticks
+                  | None => false
+                  end
              else false)
     end
   end.
@@ -77,8 +106,13 @@ Definition op_key (o : op) : option Z :=
   | _ => None
   end.
 
+(* the calls that matter for key k: those on k, every Drain, Stop *)
+Definition fop_key (o : fop) : option Z := match o with FReq r => op_key r | _ => None end.
 Definition on_key (k : Z) (x : ev) : bool :=
-  match op_key (snd x) with Some k' => k' =? k | None => false end.
+  match ev_op x with
+  | FReq r => match op_key r with Some k' => k' =? k | None => false end
+  | _ => true
+  end.
 
 Fixpoint dedup (l : list Z) : list Z :=
   match l with
@@ -87,13 +121,17 @@ Fixpoint dedup (l : list Z) : list Z :=
   end.
 
 Definition free_keys (ops : list ev) (ticks : list tk) : list Z :=
-  dedup (flat_map (fun x => match op_key (snd x) with Some k => [k] | None => [] end) ops
+  dedup (flat_map (fun x => match ev_op x with
+                            | FReq r => match op_key r with Some k => [k] | None => [] end
+                            | FDrain f => map fst f
+                            | _ => []
+                            end) ops
          ++ flat_map (fun t : tk => map fst (snd t)) ticks).
 
 Definition free_in_scope (i : Z) (ops : list ev) : bool :=
-  forallb (fun x => match snd x with OSet _ _ d | OMove _ d => i <=? d | _ => true end) ops.
+  forallb (fun x => match ev_op x with FReq (OSet _ _ d) | FReq (OMove _ d) => i <=? d | _ => true end) ops.
 
 Definition free_ok (i : Z) (ops : list ev) (ticks : list tk) : bool :=
   forallb (fun k =>
     let ok := filter (on_key k) ops in
-    lin (length ok + length ticks) i k [] ok ticks) (free_keys ops ticks).
+    lin (length ok + length ticks) i k (false, false) [] ok ticks) (free_keys ops ticks).
